@@ -156,7 +156,7 @@ def main():
         })
     man = {
         'version': 1,
-        'setup_cmd': '/venv/bin/python tools/setup_check.py',
+        'setup_cmd': '/venv/bin/python tools/setup_check.py && /venv/bin/python selftest/selftest.py',
         'hooks': {
             'guard': 'BCTPY_VERIF',
             'enable': 'none needed: the checks drive the unmodified library through its public seed= / argument seams; '
